@@ -90,3 +90,113 @@ Qed.
 
 Lemma single_witness : wf_mono w_single (monomorphize pick_first w_single) = true.
 Proof. vm_compute. reflexivity. Qed.
+
+(* ====================================================================================== *)
+(* ---- a bounded family of programs without the other root causes: three generic functions
+   (no struct literals, no calls inside them), no generic struct, one caller with <= 3 call sites *)
+Definition T_BOOL : ty := TPrim 10.
+Definition T_F64 : ty := TPrim 9.
+Definition g_id : mfn := f_identity.                                             (* name 0 *)
+Definition g_pick : mfn :=                                                        (* name 2 *)
+  mkmfn (NPlain 2) [0; 1] [(0, TParam 0); (1, TParam 1)] (TParam 0) [(0, TParam 0); (1, TParam 1)] [] one_block.
+Definition g_first : mfn :=                                                       (* name 3 *)
+  mkmfn (NPlain 3) [0] [(0, TSlice (TParam 0))] (TParam 0) [(0, TSlice (TParam 0)); (1, TParam 0)]
+        [MCast (TParam 0) T_I64] one_block.
+
+Definition caller_locals : list (N * ty) :=
+  [(0, T_I64); (1, T_STR); (2, T_BOOL); (3, T_F64); (4, TSlice T_I64); (5, TSlice T_STR)].
+Definition calls : list mstmt :=
+  map (fun k => MCall (NPlain 0) [ALocal k]) [0; 1; 2; 3]
+  ++ [MCall (NPlain 0) [AConst T_I64]; MCall (NPlain 0) [AConst T_STR]]
+  ++ flat_map (fun a => map (fun b => MCall (NPlain 2) [ALocal a; ALocal b]) [0; 1; 2]) [0; 1; 2]
+  ++ [MCall (NPlain 3) [ALocal 4]; MCall (NPlain 3) [ALocal 5]; MCall (NPlain 9) [ALocal 0]].
+Definition bodies : list (list mstmt) :=
+  [[]] ++ map (fun a => [a]) calls
+  ++ flat_map (fun a => map (fun b => [a; b]) calls) calls
+  ++ flat_map (fun a => flat_map (fun b => map (fun c => [a; b; c]) calls) calls) calls.
+Definition prog_with (body : list mstmt) : mprog :=
+  mkmp [g_id; g_pick; g_first; mkmfn (NPlain 1) [] [] T_I64 caller_locals body one_block] [] [].
+
+(* every sound choice on lists of <= 4 instances behaves like one of these *)
+Definition pick_nth (i : nat) (_ : N) (l : list inst) : option inst :=
+  match nth_error l i with Some x => Some x | None => hd_error l end.
+
+(* "single instantiation": no generic function is requested at two different keys *)
+Definition single_inst (p : mprog) : bool :=
+  let reqs := requests (p_fns p) in
+  forallb (fun r => forallb (fun r' => negb (fst r =? fst r') || tylist_eqb (key (snd r)) (key (snd r'))) reqs) reqs.
+
+Definition mono_sweep_body (b : list mstmt) : bool :=
+  let p := prog_with b in
+  forallb (fun i => Bool.eqb (wf_mono p (monomorphize (pick_nth i) p)) (single_inst p)) [0; 1; 2]%nat.
+
+
+Lemma mono_sweep_true : forallb mono_sweep_body bodies = true.
+Proof. vm_cast_no_check (eq_refl true). Qed.
+
+Lemma mono_family_size : fold_left (fun a _ => a + 1) bodies 0 = 6175.
+Proof. vm_compute. reflexivity. Qed.
+
+Lemma pick_nth_sound i : pick_sound (pick_nth i).
+Proof.
+  intros n l Hl. unfold pick_nth. destruct (nth_error l i) as [x|] eqn:E.
+  - exists x. split; [reflexivity|]. eapply nth_error_In; eassumption.
+  - destruct l as [|x r]; [congruence|]. exists x. split; [reflexivity|left; reflexivity].
+Qed.
+
+(* on the family, for each of the three choice functions: the monomorphised program satisfies all
+   clauses exactly when no generic function is requested at two different type-argument keys *)
+Lemma mono_sweep_spec : forall b i, In b bodies -> In i [0; 1; 2]%nat ->
+  wf_mono (prog_with b) (monomorphize (pick_nth i) (prog_with b)) = single_inst (prog_with b).
+Proof.
+  intros b i Hb Hi.
+  pose proof (proj1 (forallb_forall _ _) mono_sweep_true b Hb) as H1.
+  unfold mono_sweep_body in H1. cbv zeta in H1.
+  pose proof (proj1 (forallb_forall _ _) H1 i Hi) as H2. cbv beta in H2.
+  apply Bool.eqb_prop in H2. exact H2.
+Qed.
+
+(* ---- unbounded: monomorphisation never invents a CFG: every function of the result has the
+   block list of some function of the input *)
+Lemma generic_fn_In fs n g : generic_fn fs n = Some g -> In g fs.
+Proof. unfold generic_fn. intro H. apply find_some in H. apply in_rev. apply H. Qed.
+
+Lemma instantiate_blocks fs : forall reqs done newf,
+  (forall f, In f newf -> exists g, In g fs /\ m_blocks f = m_blocks g) ->
+  forall f, In f (snd (instantiate fs reqs done newf)) -> exists g, In g fs /\ m_blocks f = m_blocks g.
+Proof.
+  induction reqs as [|[n ta] r IH]; intros done newf Hn f Hf; cbn [instantiate] in Hf.
+  - apply Hn. exact Hf.
+  - destruct (has_inst done n (key ta)).
+    + eapply IH; eassumption.
+    + destruct (generic_fn fs n) as [g|] eqn:Eg.
+      * eapply IH; [|exact Hf]. intros f' Hf'. apply in_app_or in Hf' as [Hf'|[<-|[]]].
+        -- apply Hn. exact Hf'.
+        -- exists g. split; [eapply generic_fn_In; eassumption|reflexivity].
+      * eapply IH; eassumption.
+Qed.
+
+Lemma rewrite_fn_blocks tab f : m_blocks (rewrite_fn tab f) = m_blocks f.
+Proof. unfold rewrite_fn. destruct (is_generic f); reflexivity. Qed.
+
+Lemma mono_preserves_blocks pick p f :
+  In f (p_fns (monomorphize pick p)) -> exists g, In g (p_fns p) /\ m_blocks f = m_blocks g.
+Proof.
+  unfold monomorphize, mono_finish.
+  destruct (mono_insts p) as [insts newf] eqn:E. cbn [p_fns].
+  intro H. apply filter_In in H as [H _]. apply in_map_iff in H as [f0 [<- H0]].
+  rewrite rewrite_fn_blocks. apply in_app_or in H0 as [H0|H0].
+  - exists f0. split; [exact H0|reflexivity].
+  - unfold mono_insts in E.
+    apply (instantiate_blocks (p_fns p) (requests (p_fns p)) [] []); [intros ? []|].
+    rewrite E. exact H0.
+Qed.
+
+Lemma mono_preserves_cfg pick p :
+  forallb (fun f => wf_cfg (m_blocks f)) (p_fns p) = true ->
+  forallb (fun f => wf_cfg (m_blocks f)) (p_fns (monomorphize pick p)) = true.
+Proof.
+  intro H. apply forallb_forall. intros f Hf.
+  destruct (mono_preserves_blocks pick p f Hf) as [g [Hg ->]].
+  rewrite forallb_forall in H. apply H. exact Hg.
+Qed.
